@@ -241,6 +241,145 @@ fn huge_limit_layer(w: &World, col: &Collector) {
     col.layer("LIMIT far beyond the input (child processes, 6 GiB address space)", n, true, json!({"limits": HUGE_LIMITS}));
 }
 
+/// a pipe whose writer stays open: only the lines up to the one that produces the n-th row are written; the executor
+/// must end without waiting for more input. Returns (finished in time, printed records)
+fn pipe_case(w: &World, text: &str, lines: &[&str], upto: usize) -> (bool, Option<Vec<String>>) {
+    use std::io::Write;
+    use std::os::fd::FromRawFd;
+    let st = match sut::parse(text) {
+        Ok(s) => s,
+        Err(_) => return (true, None),
+    };
+    let mut fds = [0i32; 2];
+    if unsafe { libc::pipe(fds.as_mut_ptr()) } != 0 {
+        return (true, None);
+    }
+    let reader = unsafe { std::fs::File::from_raw_fd(fds[0]) };
+    let mut writer = unsafe { std::fs::File::from_raw_fd(fds[1]) };
+    let data: String = lines[..upto].iter().map(|l| format!("{}\n", l)).collect();
+    let _ = writer.write_all(data.as_bytes());
+    let (tx, rx) = std::sync::mpsc::channel();
+    let result = std::thread::scope(|s| {
+        s.spawn(|| {
+            let r = sut::run_opened_files(&w.tables, &st, vec![reader], FileRunOpts::default());
+            let _ = tx.send(match r {
+                Outcome::Ok(fr) if fr.result.is_ok() => Some(strip_blank(&fr.printed)),
+                _ => None,
+            });
+        });
+        let first = rx.recv_timeout(std::time::Duration::from_secs(5));
+        // let the executor end in any case: close the pipe
+        drop(writer);
+        match first {
+            Ok(r) => (true, r),
+            Err(_) => (false, rx.recv_timeout(std::time::Duration::from_secs(30)).ok().flatten()),
+        }
+    });
+    result
+}
+
+fn pipe_layer(w: &World, col: &Collector) {
+    let jl = jlines();
+    let input: Vec<&str> = [0usize, 1, 5, 2, 3, 4, 0, 1].iter().map(|i| jl[*i]).collect();
+    let n_cases = std::sync::atomic::AtomicU64::new(0);
+    par_for(w.stmts.len() as u64, |si| {
+        let si = si as usize;
+        let (stmt_text, kind) = &w.stmts[si];
+        let base = match sut::parse(stmt_text) {
+            Ok(s) => s,
+            Err(_) => return,
+        };
+        if base.is_aggregate() {
+            return;
+        }
+        let per_line = match sut::rows_per_line(&w.tables, &base, &input) {
+            Outcome::Ok(p) => p,
+            _ => return,
+        };
+        let full: Vec<String> = match sut::run_files(&w.tables, &base, &[format!("{}\n", input.join("\n")).as_bytes()], FileRunOpts::default()) {
+            Outcome::Ok(fr) if fr.result.is_ok() => strip_blank(&fr.printed),
+            _ => return,
+        };
+        for n in [1usize, 2, 3] {
+            // the line that produces the n-th row
+            let mut cum = 0;
+            let mut producing = None;
+            for (i, c) in per_line.iter().enumerate() {
+                cum += c;
+                if cum >= n {
+                    producing = Some(i + 1);
+                    break;
+                }
+            }
+            let upto = match producing {
+                Some(p) if p < input.len() => p,
+                _ => continue,
+            };
+            let text = format!("{} LIMIT {}", stmt_text, n);
+            n_cases.fetch_add(1, std::sync::atomic::Ordering::Relaxed);
+            col.eval(1);
+            col.nontrivial(h64(&("pipe", si, n)));
+            let (in_time, got) = pipe_case(w, &text, &input, upto);
+            let want: Vec<String> = full.iter().take(n).cloned().collect();
+            if !in_time || got.as_ref() != Some(&want) {
+                col.fail(fail(
+                    format!("limit:{}:pipe:{}", kind, if !in_time { "waits-for-input-after-the-nth-row" } else { "records-differ" }),
+                    format!("`{}` reading a pipe that holds the first {} lines and stays open: {}; printed {:?}, expected {:?}", text, upto, if in_time { "ended" } else { "did not end within 5 s (it ended once the pipe was closed)" }, got, want),
+                    json!({"layer": "pipe", "stmt": si, "statement": text, "n": n, "lines_written": upto}),
+                    json!(want),
+                    json!(got),
+                    (si * 10 + n) as u64,
+                ));
+            }
+        }
+    });
+    col.layer("LIMIT over a pipe that stays open after the line of the n-th row", n_cases.load(std::sync::atomic::Ordering::Relaxed), true, json!({"n": [1, 2, 3]}));
+}
+
+/// the LIMIT clause written in other layouts (own line, after an empty / non-empty comment, CRLF, lower case)
+fn limit_layout_layer(w: &World, col: &Collector) {
+    let jl = jlines();
+    let input = format!("{}\n", [0usize, 1, 5, 2, 3, 4, 0].iter().map(|i| jl[*i]).collect::<Vec<_>>().join("\n"));
+    let mut n_cases = 0u64;
+    for (si, (stmt_text, kind)) in w.stmts.iter().enumerate() {
+        for n in [0usize, 1, 2] {
+            let base_text = format!("{} LIMIT {}", stmt_text, n);
+            let base = match sut::parse(&base_text).ok().map(|st| sut::run_files(&w.tables, &st, &[input.as_bytes()], FileRunOpts::default())) {
+                Some(Outcome::Ok(fr)) if fr.result.is_ok() => strip_blank(&fr.printed),
+                _ => continue,
+            };
+            for (lname, text) in [
+                ("own-line", format!("{}\nLIMIT {}", stmt_text, n)),
+                ("after-empty-comment", format!("{}\n--\nLIMIT {}", stmt_text, n)),
+                ("after-comment", format!("{} -- first rows only\nLIMIT {}", stmt_text, n)),
+                ("crlf", format!("{}\r\nLIMIT {}\r\n", stmt_text, n)),
+                ("lower-case", format!("{} limit {}", stmt_text, n)),
+                ("semicolon", format!("{} LIMIT {};", stmt_text, n)),
+                ("tab", format!("{}\tLIMIT\t{}", stmt_text, n)),
+            ] {
+                n_cases += 1;
+                col.eval(1);
+                col.nontrivial(h64(&("limit-layout", si, n, lname)));
+                let got = match sut::parse(&text).ok().map(|st| sut::run_files(&w.tables, &st, &[input.as_bytes()], FileRunOpts::default())) {
+                    Some(Outcome::Ok(fr)) if fr.result.is_ok() => Some(strip_blank(&fr.printed)),
+                    _ => None,
+                };
+                if got.as_ref() != Some(&base) {
+                    col.fail(fail(
+                        format!("limit:{}:layout:{}", kind, lname),
+                        format!("{:?} prints {:?}; {:?} prints {:?}", text, got, base_text, base),
+                        json!({"layer": "limit-layout", "stmt": si, "statement": text, "n": n}),
+                        json!(base),
+                        json!(got),
+                        (si * 10 + n) as u64,
+                    ));
+                }
+            }
+        }
+    }
+    col.layer("LIMIT clause in other layouts", n_cases, true, json!({"layouts": ["own line", "after an empty comment", "after a comment", "CRLF", "lower case", "semicolon", "tab"]}));
+}
+
 pub fn run(ctx: &Ctx) -> i32 {
     let col = Collector::new();
     let w = world();
@@ -291,6 +430,8 @@ pub fn run(ctx: &Ctx) -> i32 {
         crate::drivers::run_layer(&col, &cases, &|_| "limit".to_string());
     }
     huge_limit_layer(&w, &col);
+    pipe_layer(&w, &col);
+    limit_layout_layer(&w, &col);
     col.layer("limit x files", done, complete, json!({"statements": nst, "line_sequences": nseq, "max_len": maxlen, "max_files": 3}));
     // an aggregate result requested again from the same engine (update-only lines, result, more lines, result) keeps the first n groups
     {
@@ -434,6 +575,16 @@ pub fn run(ctx: &Ctx) -> i32 {
 
 pub fn replay(case: &J) -> Vec<Failure> {
     let w = world();
+    if matches!(case["layer"].as_str(), Some("pipe") | Some("limit-layout")) {
+        let col = Collector::new();
+        if case["layer"].as_str() == Some("pipe") {
+            pipe_layer(&w, &col);
+        } else {
+            limit_layout_layer(&w, &col);
+        }
+        let f = col.failures.lock().unwrap();
+        return f.values().flat_map(|v| v.iter().cloned()).filter(|f| f.case["statement"] == case["statement"]).collect();
+    }
     if case["layer"].as_str() == Some("huge-limit") {
         let col = Collector::new();
         huge_limit_layer(&w, &col);
